@@ -44,6 +44,11 @@ def region(body, branch_blk, succ):
     return out
 
 
+def dominated_region(body, blk):
+    """Blocks dominated by `blk` (the arm of a branch whose target has the branch as its only predecessor)."""
+    return {x for x in body.reachable if C.dominates(body, blk, x)}
+
+
 def aggregates(body, adt_path=None, blocks=None):
     """(blk, idx, stmt) for aggregate assignments of the given ADT (path suffix match)."""
     out = []
